@@ -8,6 +8,7 @@ import Parmcb.Model.Lex
 import Parmcb.Model.Iso
 import Parmcb.Model.TreeCheck
 import Parmcb.Model.Cert
+import Parmcb.Model.TreesAlgo
 import Parmcb.Driver.Proto
 /-! correspondence handlers for the graph algorithms (C16, C13, C01/C02 …) -/
 namespace Parmcb.Driver
@@ -217,6 +218,51 @@ def validateSearches (id : String) (gI : Graph) (sups : List (List Nat)) (evs : 
     k := k + 1
   return none
 
+/-- lexicographic order on edge-id lists (for comparing collections of cycles as multisets) -/
+def natListLe : List Nat → List Nat → Bool
+  | [], _ => true
+  | _ :: _, [] => false
+  | a :: r, b :: q => a < b || (a == b && natListLe r q)
+
+/-- **literal replay of a tree variant** (`Model/TreesAlgo.lean`) on the graph in ForestIndex coordinates, with the sorted
+candidate list the C++ reported (hook `report_candidates`): the observed list must consist of created candidates of the
+model's trees, stand for exactly the cycles of the model's collection, and be sorted by weight — these are the hypotheses
+of `C02.c02_fvs_trees_end_to_end` / `c02_iso_trees_end_to_end` — and then the literal main loop must emit EXACTLY the
+cycles the C++ emitted, phase by phase, and the same total. -/
+def replayTrees (id : String) (gI : Graph) (var : String) (dim : Nat) (rest : List (List String))
+    (cycI : List (List Nat)) (ret : Int) : Option String := Id.run do
+  let scs : List (Nat × Nat × Nat × Int) := (rest.filter (fun l => l.head? == some "sc")).filterMap fun l =>
+    match l.tail with
+    | [t, s, e, w] => do some ((← t.toNat?), (← s.toNat?), (← e.toNat?), (← w.toInt?))
+    | _ => none
+  match findNats "nsc" rest with
+  | some [k] => if k != scs.length then return some s!"diff {id} parse-sc-lines"
+  | _ => return some s!"diff {id} parse-nsc"
+  let (trees, coll) := if var == "fvs" then fvsCands gI ((findNats "fvs" rest).getD []) else isoCands gI
+  let obs : List Cand := scs.map fun (t, _, e, w) => { tree := t, edge := e, weight := w }
+  for (t, s, e, w) in scs do
+    match trees[t]? with
+    | none => return some s!"diff {id} sorted-candidates tree-id {t} out of range (model has {trees.length} trees)"
+    | some tr =>
+      if tr.source != s then return some s!"diff {id} sorted-candidates tree {t} rooted at {s}, model {tr.source}"
+      let c : Cand := { tree := t, edge := e, weight := w }
+      if !((createCandidates gI tr t (List.range gI.m)).contains c) then
+        return some s!"diff {id} sorted-candidates ({t},{e},{w}) is not a candidate of the model's tree {t}"
+  let cyclesOf (l : List Cand) : List (List Nat) :=
+    (l.filterMap fun c => (trees[c.tree]?).bind fun t => unfoldCand gI t c).mergeSort natListLe
+  if cyclesOf obs != cyclesOf coll || obs.length != coll.length then
+    return some s!"diff {id} sorted-candidates stand for other cycles than the model's {var} collection (observed {obs.length}, model {coll.length})"
+  if !(obs.zip obs.tail).all (fun (a, b) => a.weight ≤ b.weight) then
+    return some s!"viol {id} candidate list not sorted by weight"
+  let r := mcbTreesCore dim (fun _ S => lookupSorted gI trees obs S)
+  let mut k := 0
+  for (a, b) in r.cycles.zip cycI do
+    if a != b then return some s!"diff {id} literal-trees-loop phase {k} model=[{showNats a}] impl=[{showNats b}]"
+    k := k + 1
+  if r.cycles.length != cycI.length then return some s!"diff {id} literal-trees-loop phases model={r.cycles.length} impl={cycI.length}"
+  if r.weight != ret then return some s!"diff {id} literal-trees-loop weight model={r.weight} impl={ret}"
+  return none
+
 /-- C01/C02: the implementation's cycles are replayed through the literal support bookkeeping -/
 def handleExact (c : Case) : String := Id.run do
   match parseGraph c.body with
@@ -248,7 +294,12 @@ def handleExact (c : Case) : String := Id.run do
           match validateSearches c.id gI (phaseSupports v 0 sup0 cycI) evs (var != "signed") with
           | some d => return d
           | none => pure ()
-        return s!"ok {c.id} {g.n} {g.m} {dim} {total} {bA} {bH} {if brute then 1 else 0} {evs.length}"
+        let mut lit := 0
+        if (var == "fvs" || var == "iso") && (findLine "nsc" rest).isSome then
+          match replayTrees c.id gI var dim rest cycI ret with
+          | some d => return d
+          | none => lit := 1
+        return s!"ok {c.id} {g.n} {g.m} {dim} {total} {bA} {bH} {if brute then 1 else 0} {evs.length} {lit}"
     | _, _, _, _, _ => return s!"diff {c.id} parse-exact-lines"
 
 /-- C15: literal replay of the spanner construction with the observed scan order -/
